@@ -16,6 +16,7 @@ import (
 	"fmt"
 	"io"
 	"net"
+	"os"
 	"strings"
 	"sync"
 	"testing"
@@ -260,6 +261,9 @@ func runInBubble(p plan) (res vk.Result) {
 		rm = retryModel(p.Retry)
 		phE = phaseAt(rm, E)
 		if phE.kind == "ambiguous" {
+			if os.Getenv("C22_DEBUG_DISCARD") != "" {
+				return vk.Bad("DEBUG discard: phase %+v model %+v", phE, rm)
+			}
 			return vk.Result{Discard: true} // E within the jitter uncertainty (shrunk / hand-written plans only)
 		}
 		installScript(hs, p.Retry, stopScripts)
